@@ -137,7 +137,8 @@ def shiftedArrives (u : Uni) (k k' : Key) : Prop := matchSpec u k' k.shifted (un
 instance (u : Uni) (k k' : Key) : Decidable (shiftedArrives u k k') := by unfold shiftedArrives; exact inferInstance
 
 /-- Cursor keys (and Home/End): the child's DECCKM selects SS3 (application) or CSI (normal). -/
-def cursorKeys : List (Int × Int) := [(KeyUp, 65), (KeyDown, 66), (KeyRight, 67), (KeyLeft, 68), (KeyEnd, 70), (KeyHome, 72)]
+def cursorKeys : List (Int × Int) :=
+  [(KeyUp, 65), (KeyDown, 66), (KeyRight, 67), (KeyLeft, 68), (KeyEnd, 70), (KeyHome, 72), (KeyKeyPadBegin, 69)]
 
 def cursorSeq (final : Int) (decckm : Bool) : Seq := if decckm then .ss3 final else .csi [] final
 
